@@ -120,7 +120,7 @@ BOUNDED_FILES = {
     'formalargs.rs': 'eleven concrete call shapes (at most 2 parameters + rest, at most 3 arguments)',
     'sel_compound.rs': 'concrete compound selectors with at most one placeholder / class / id',
     'sel_pseudo.rs': 'constructors only',
-    'sel_selector.rs': 'concrete selector structures: lists of at most 3 complex selectors, one combinator, one pseudo-class with a selector argument',
+    'sel_selector.rs': 'level harnesses: see their own entry; others: concrete selector structures: lists of at most 3 complex selectors, one combinator, one pseudo-class with a selector argument',
     'cssdata.rs': 'buffers of 0..=3 bytes (one harness per length and style)',
     'evalops.rs': 'one representative payload per value constructor without a nested Value (12 of 17 kinds); scalar payloads symbolic',
 }
@@ -163,6 +163,8 @@ OVERRIDES = [
     (r'^c13_(get_and_has_key_|get_follows|has_key_follows|get_further)', dict(functions=['sass::functions::map::find_value (complete item, extracted)', 'map.get / map.has-key closures (complete bodies, extracted; value type instantiated at atoms + nested maps behind references)'],
         bounded='one three-entry map with a nested two-entry map; keys as rest arguments (with / without trailing comma), list, single value')),
     (r'^c13_(get_follows|has_key_follows|get_further)', dict(kind='attempt', tier='thorough', timeout=2400)),  # measured: > 11 min each (nested lookups through the rest-argument list)
+    (r'^c22_level_', dict(functions=['SelectorSet::no_placeholder', 'Selector::no_placeholder', 'Selector::is_local_empty', 'CompoundSelector::no_placeholder', 'Pseudo::no_placeholder', 'Pseudo::name_in', 'pseudo::name_in (complete bodies, extracted unchanged; the type one level down is a stand-in whose no_placeholder result is chosen by the harness)'],
+        bounded='lists of three complex selectors / two pseudo selectors, every combination of callee results (removed / matches anything / kept); pseudo names not, is, where, slotted, hover')),
     (r'^c16_assignment_updates', dict(functions=['Scope::set_variable (flag logic after the module case; extracted range)'], bounded=None)),
     (r'^c17_for_end_unit', dict(functions=['sass::SrcRange::evaluate (unit conversion of the end value, extracted range)'],
                                 bounded='seven concrete (value, unit, unit) triples')),
